@@ -11,6 +11,15 @@ Check C09_exact :
     c_follow c = false ->
     scan sel_file sel_dir ign1 t c sched roots = Done l ->
     (In x l <-> selected sel_file sel_dir ign1 t c false roots x /\ size_ok t c x = true).
+Check C09_exact_exclude :
+  forall sel_file sel_dir ign1 t c excl sched roots l x,
+    (forall p d, sel_file p = true -> prefix d p -> d <> p ->
+                 sel_dir d = true \/ exists d', prefix d' d /\ excl d' = true) ->
+    (forall d d', excl d' = true -> prefix d' d -> sel_dir d = false) ->
+    (forall p, sel_file p = true -> excl p = false) ->
+    c_follow c = false ->
+    scan sel_file sel_dir ign1 t c sched roots = Done l ->
+    (In x l <-> selected sel_file (not_below excl) ign1 t c true roots x /\ size_ok t c x = true).
 Check C09_exact_follow_partial :
   forall sel_file sel_dir ign1 t c sched roots l x,
     c_follow c = true -> c_no_ignore c = true -> c_one_fs c = false ->
@@ -51,3 +60,5 @@ Check C09_overlap_no_loss :
 Check conservative : (path -> bool) -> (path -> bool) -> Prop.
 Check (eq_refl : conservative = fun sel_file sel_dir => forall p d, sel_file p = true -> prefix d p -> sel_dir d = true).
 Check (eq_refl : prefix = fun d p => exists r, p = d ++ r).
+Check (eq_refl : not_below = fun excl d => negb (existsb excl (prefixes d))).
+Check (eq_refl : prefixes = fun d => map (fun n => firstn n d) (seq 0 (S (length d)))).
